@@ -72,7 +72,8 @@ def classify(rec):
         # documented-panic harness: the only acceptable outcome is a failure in which the
         # marker after the call is NOT among the failed checks (every path panicked before it)
         if st == "fail" and rec["failed"] and not unwinding_only(rec):
-            if any(MARKER in (c["description"] or "") for c in rec["failed"]):
+            if any(MARKER in (c["description"] or "") or "must_have_panicked" in (c.get("function") or "")
+                   for c in rec["failed"]):
                 return "fail"
             return "ok"
         if st == "pass":
@@ -321,7 +322,7 @@ def check(prop, tier, only=None, seed=0):
                     inconclusive.append({"harness": h.name, "why": why})
                     log("INCONCLUSIVE harness=%s %s" % (h.name, why))
                 else:  # fail
-                    descs = [x["description"] or "" for x in rec["failed"]]
+                    descs = ["%s [in %s]" % (x["description"] or "", x.get("function") or "") for x in rec["failed"]]
                     key = h.expect.split(":", 1)[1] if h.expect.startswith("finding:") else None
                     if key and key in kf:
                         allowed = kf[key].get("check_contains", [])
